@@ -318,7 +318,29 @@ func checkC01() int {
 	cases = append(cases, closedCorpus(pool)...)
 	c.Rule = "G1 programs (type-directed generator, closed, terminating) and closed corpus programs that Grits' typechecker accepts, each run in async/sync/np under seeded configurations (monitor, GOMAXPROCS, perturbation profile); non-trivial = distinct program that spawned >= 3 processes and exchanged >= 4 messages in some run"
 	c.Assumptions = []string{"a worker death is attributed to the job it had started", "deaths while typechecking are C09's business and make the program 'not accepted' here"}
+	// the same programs made large in one respect (many parameters next to functions whose
+	// names extend one another, alias chains, padding, long names): one form each for a tenth
+	{
+		ir := rand.New(rand.NewSource(subSeed(c.Seed, 101)))
+		for i, pc := range cases {
+			if i%10 == 0 && pc.P != nil {
+				q, kind := mut.Inflate(pc.P, ir, []string{"many-params", ""}[(i/10)%2])
+				if typing.Check(q).Kind == typing.Accept {
+					cases = append(cases, &progCase{ID: pc.ID + "-" + kind, P: q, Text: q.Text(), Contr: pc.Contr, LazyMS: pc.LazyMS, LazySteps: pc.LazySteps + 200, Source: "G1-inflated", Feat: q.Feat})
+				}
+			}
+		}
+	}
 	outs := runMatrix(c, pool, cases, nCfg, modesAll)
+	// long programs (thousands of rule firings, deep recursion of one process, hundreds of
+	// live processes) in the three modes with the monitor attached
+	for _, k := range []int{8, c.pick(9, 10)} {
+		pc := &progCase{ID: fmt.Sprintf("long%d", k), Text: longProgram(k), Source: "long"}
+		for _, cfg := range []runCfg{{Mode: "async", Monitor: true, Procs: 4, Profile: "none"}, {Mode: "sync", Monitor: true, Procs: 16, Profile: "none"}, {Mode: "np", Monitor: true, Procs: 2, Profile: "none"}, {Mode: "async", Procs: 16, Profile: "gosched"}} {
+			o := pool.Run([]sup.Job{jobFor(pc, cfg, uint64(k), 50000000)}, nil)[0]
+			outs = append(outs, runOut{pc: pc, cfg: cfg, o: o})
+		}
+	}
 	fps := map[uint64]bool{}
 	deaths := map[string]int{}
 	notAccepted := 0
@@ -525,8 +547,25 @@ func checkC03() int {
 	})...)
 	// long-running programs (busy for much longer than the heartbeat interval), through the
 	// real entry point and through the exact-quiescence entry
-	for _, k := range []int{9, 10, c.pick(10, 11)} {
+	// thousands of processes alive but parked for the whole run (thorough only: parsing and
+	// typechecking 4 500 declarations takes Grits half a minute, the known finding N3)
+	if c.pick(0, 1) == 1 {
+		pc := &progCase{ID: "idle4500", Text: idleProgram(4500), Source: "idle"}
+		for _, cfg := range []runCfg{{Mode: "sync", Procs: 16, Profile: "none"}, {Mode: "async", Procs: 16, Profile: "none"}} {
+			o := pool.Run([]sup.Job{jobFor(pc, cfg, 4500, 500000000)}, nil)[0]
+			outs = append(outs, runOut{pc: pc, cfg: cfg, o: o})
+		}
+	}
+	for _, k := range []int{9, 10, c.pick(10, 11), 13} {
 		pc := &progCase{ID: fmt.Sprintf("long%d", k), Text: longProgram(k), Source: "long"}
+		if k == 13 {
+			// more than 8 000 processes alive at once in the synchronous modes
+			for _, cfg := range []runCfg{{Mode: "sync", Procs: 16, Profile: "none"}, {Mode: "async", Procs: 16, Profile: "none"}} {
+				o := pool.Run([]sup.Job{jobFor(pc, cfg, uint64(k), 500000000)}, nil)[0]
+				outs = append(outs, runOut{pc: pc, cfg: cfg, o: o})
+			}
+			continue
+		}
 		for _, cfg := range []runCfg{{Mode: "async", Procs: 16, Profile: "none", Entry: "init"}, {Mode: "np", Procs: 4, Profile: "none", Entry: "init"}, {Mode: "async", Procs: 4, Profile: "none"}, {Mode: "sync", Procs: 16, Profile: "gosched"}, {Mode: "np", Procs: 2, Profile: "none"}} {
 			o := pool.Run([]sup.Job{jobFor(pc, cfg, uint64(k), 50000000)}, nil)[0]
 			outs = append(outs, runOut{pc: pc, cfg: cfg, o: o})
@@ -801,6 +840,27 @@ prc[main] : 1 =
 		prev = fmt.Sprintf("d%d", i)
 	}
 	fmt.Fprintf(&b, "    u <- new consume(%s);\n    wait u;\n    print done;\n    close self\n", prev)
+	return b.String()
+}
+
+// idleProgram: n top-level processes nobody talks to (in the synchronous modes each stays
+// parked on its first send for the whole run) next to a small chain of cuts that prints.
+func idleProgram(n int) string {
+	var b strings.Builder
+	for i := 0; i < n; i++ {
+		fmt.Fprintf(&b, "prc[idle%d] : lin 1 = close self\n", i)
+	}
+	b.WriteString(`let unitp() : lin 1 = print made; close self
+prc[main] : lin 1 =
+    a <- new unitp();
+    wait a;
+    b <- new unitp();
+    wait b;
+    c <- new unitp();
+    wait c;
+    print done;
+    close self
+`)
 	return b.String()
 }
 
